@@ -109,6 +109,13 @@ func c08Body(t *testing.T, s *sim.Scn, o *sim.Outcome) {
 			o.Count("da-outage-entries", int(cnt))
 		case "daprefix":
 			w.DA.SubmitScript = append(w.DA.SubmitScript, sim.SubmitOutcome{Kind: sim.SubPrefix, N: int(op.A), Advance: true})
+		case "stop", "kill":
+			r.exec(op, -1)
+			w.DA.SubmitScript = nil
+			if !r.start(i, "C08") {
+				return
+			}
+			o.Count("restarts", 1)
 		case "subh", "subd":
 			r.exec(op, -1)
 			if oracle, msg := l.Scan(); oracle != "" {
@@ -176,8 +183,10 @@ func c08Gen(r *rand.Rand, tier string) *sim.Scn {
 				op.A = 90
 			}
 			s.Ops = append(s.Ops, op)
-		default:
+		case x < 93:
 			s.Ops = append(s.Ops, sim.Op{K: "da", A: r.Int64N(6), B: r.Int64N(6)})
+		default:
+			s.Ops = append(s.Ops, sim.Op{K: []string{"stop", "kill"}[r.IntN(2)]})
 		}
 	}
 	return s
